@@ -123,7 +123,15 @@ def run(rep: vlib.Reporter, tier: str, seed: int) -> None:
         dist["sync_ok"] += 1
         uni = Universe(r["spec"], GateListener())
         sess = uni.prepare()
-        base = canon_result(run_observed(sess)["result"])
+        o_ref = run_observed(sess)
+        if o_ref["status"] != "ok":       # the reference run is repeated once; a SYNC run that fails after it succeeded is reported with its input
+            o_ref = run_observed(sess)
+        if o_ref["status"] != "ok":
+            rep.finding(f"sync-rerun:{key}", f"a second SYNC run of the prepared session ended with {o_ref['status']}: "
+                        f"{' '.join(str(o_ref.get('exc')).split())[-200:]} (the first SYNC run returned tables)", {"kind": "mp", "spec": r["spec"]})
+            found = True
+            continue
+        base = canon_result(o_ref["result"])
         # THREADING (gated)
         for j, g in enumerate(r["gated"]):
             dist["threading_runs"] += 1
